@@ -15,7 +15,8 @@ SPEC = os.path.join(VERIF, "spec")
 HARNESS = os.path.join(VERIF, "harness")
 WORK = os.environ.get("VERIF_WORK", os.path.join(VERIF, "work"))
 BUILD = os.path.join(VERIF, "build")
-EVIDENCE = os.path.join(VERIF, "evidence")
+# evidence describes /repo itself: a run against another tree (VERIF_REPO=<scratch copy with a change applied>) keeps its files with its work
+EVIDENCE = os.path.join(VERIF, "evidence") if os.path.realpath(REPO) == "/repo" else os.path.join(WORK, "evidence")
 TLA_JAR = "/opt/veriftools/tla/tla2tools.jar"
 TLA_CP = TLA_JAR + ":/opt/veriftools/tla/CommunityModules-deps.jar"
 NCPU = os.cpu_count() or 4
